@@ -162,6 +162,12 @@ func (c *typeComputer) visit(n ast.Node, e tenv, unkDir bool) {
 			if nm := nameOf(n.TypeCondition.Name); c.s.typeKind(nm) != "" {
 				e.typ = nm
 			}
+		} else {
+			// Correction (lead): without a type condition the fragment applies
+			// to the NAMED type of the enclosing position (spec: the type in
+			// scope of a selection set is always a named composite type); the
+			// first version mirrored the library, which pushed the wrapped type.
+			e.typ = strings.Trim(e.typ, "[]!")
 		}
 	case *ast.FragmentDefinition:
 		e.typ = ""
